@@ -186,6 +186,7 @@ def generate(rng, tier):
     # (probe) must be those of the raw operation sequence
     import hdr_mix
     cs += hdr_mix.cases(rng, Case, [("v", "s"), ("t", "s"), ("w", "s"), ("w", "c")], 60 if tier == "quick" else 2000, 100, faults=0.2, special_key=special_key)
+    cs += hdr_mix.wrath_size_boundaries(rng, Case)
     return cs
 
 def nontrivial(case, out):
